@@ -147,6 +147,20 @@ Theorem C16_tx_independent :
   forall e r, lenN e <= MAX_VEC_MEM_ALLOC_SIZE -> dec_bytes_vec (enc_bytes_vec e ++ r) = (Ok e, r).
 Proof. exact dec_bytes_vec_complete. Qed.
 
+(* the outcome of the conversion (value or panic) is the function raw_of_extra_outcome of the serialised length —
+   this is what op `extra_from_len` evaluates at the cap boundary, with nonce_field_len for a single nonce *)
+Theorem C16_from_outcome :
+  forall fs, existsb subfield_overflows fs = false -> lenN (enc_fields fs) < 2 ^ 64 ->
+  match raw_of_extra fs with
+  | Ok raw => raw = enc_fields fs /\ raw_of_extra_outcome (lenN (enc_fields fs)) = Ok (lenN raw)
+  | Err _ => False
+  | Panic => raw_of_extra_outcome (lenN (enc_fields fs)) = Panic
+  end.
+Proof. exact from_outcome. Qed.
+
+Theorem C16_nonce_field_len : forall b, lenN (enc_fields [Nonce b]) = nonce_field_len (lenN b).
+Proof. exact nonce_field_len_ok. Qed.
+
 (* ---- non-vacuity / sanity (key check instantiated with "every 32-byte string", cheap to evaluate) ---- *)
 Definition any_key (_ : bytes) : bool := true.
 Definition k32 : bytes := repeat x2a 32.
@@ -227,6 +241,14 @@ Check C16_accessors_first :
   (forall fs, tx_additional_pubkeys fs = None <-> Forall (fun f => forall k', f <> AdditionalPublicKey k') fs).
 Check C16_tx_independent :
   forall e r, lenN e <= MAX_VEC_MEM_ALLOC_SIZE -> dec_bytes_vec (enc_bytes_vec e ++ r) = (Ok e, r).
+Check C16_from_outcome :
+  forall fs, existsb subfield_overflows fs = false -> lenN (enc_fields fs) < 2 ^ 64 ->
+  match raw_of_extra fs with
+  | Ok raw => raw = enc_fields fs /\ raw_of_extra_outcome (lenN (enc_fields fs)) = Ok (lenN raw)
+  | Err _ => False
+  | Panic => raw_of_extra_outcome (lenN (enc_fields fs)) = Panic
+  end.
+Check C16_nonce_field_len : forall b, lenN (enc_fields [Nonce b]) = nonce_field_len (lenN b).
 
 Print Assumptions C16_total.
 Print Assumptions C16_subfield_never_panics.
@@ -248,3 +270,5 @@ Print Assumptions C16_ok_idempotent.
 Print Assumptions C16_ok_bytes_equal_without_mm.
 Print Assumptions C16_accessors_first.
 Print Assumptions C16_tx_independent.
+Print Assumptions C16_from_outcome.
+Print Assumptions C16_nonce_field_len.
